@@ -27,6 +27,7 @@ SEAMS = [
     "listener/socket/zz_verif_seam.go",
     "services/ftp/zz_verif_seam.go",
     "director/forward/zz_verif_seam.go",
+    "services/ipp/zz_verif_seam.go",
 ]
 
 class AnchorError(Exception):
